@@ -136,7 +136,15 @@ constexpr auto str(int seed) -> long long
     t.replace(0, 1, "J");
     t.pop_back();
     auto const u = t.substr(6, 100);
-    return static_cast<long long>(full + s.size() + t.size() + u.size() + t.find("wor") + t.rfind('o') + t.find_first_of("xyz!"))
+    // inserts that exceed the capacity are clamped (append clamps; the rotation must use the clamped end)
+    etl::inplace_string<15> near{"abcdefghijklmn"};   // 14 of 15
+    near.insert(2, "xyz");                            // only one character fits
+    etl::inplace_string<16> near2{"abcdefghijklmnop"};   // full, normal layout
+    near2.insert(0, "q");                             // nothing fits
+    near2.insert(16, "r");
+    etl::inplace_string<20> near3{"0123456789abcdefgh"};  // 18 of 20
+    near3.insert(5, 7, '!');                          // two fit
+    return static_cast<long long>(near.size() + near2.size() + near3.size() + full + s.size() + t.size() + u.size() + t.find("wor") + t.rfind('o') + t.find_first_of("xyz!"))
          + s.compare(t) + (t.starts_with("Jello") ? 1 : 0) + (t.ends_with('!') ? 1 : 0);
 }
 
@@ -156,6 +164,11 @@ constexpr auto view(int seed) -> long long
     acc += static_cast<long long>(e.find_last_not_of("a") == etl::string_view::npos ? 1 : 0);
     acc += h.substr(13).compare("fo") + h.compare(10, 3, n) + (h.starts_with("the") ? 1 : 0) + (h.ends_with("xfo") ? 1 : 0);
     acc += static_cast<long long>(h.substr(15).size() + h.substr(4, 5).size());
+    // positions at and beyond size() on a view that ends with its array: data()[size()] does not exist
+    acc += static_cast<long long>(h.rfind('o', h.size()) + h.rfind('q', etl::string_view::npos) + h.rfind("o", h.size()));
+    acc += static_cast<long long>(h.find_last_of('o', h.size()) + h.find_last_not_of('o', h.size()) + h.find_last_of("fo", 15));
+    acc += static_cast<long long>(h.find('t', h.size()) == etl::string_view::npos ? 1 : 0) + static_cast<long long>(h.find_first_of('o', 15) == etl::string_view::npos ? 1 : 0);
+    acc += static_cast<long long>(e.rfind('a', 0) == etl::string_view::npos ? 1 : 0);
     return acc;
 }
 
@@ -254,6 +267,18 @@ constexpr auto conv(int seed) -> long long
     char fi[4] = {};
     auto fr = etl::strings::from_integer(-12, fi, 4, 10);         // exact fit with terminator
     acc += static_cast<long long>(fr.error == etl::strings::from_integer_error::none ? 1 : 0);
+    char one[1] = {};
+    auto fz = etl::strings::from_integer(0, one, 1, 10);          // "0" + terminator does not fit: nothing behind one[0]
+    acc += static_cast<long long>(fz.error == etl::strings::from_integer_error::none ? 1 : 0);
+    auto fz0 = etl::strings::from_integer(seed, one, 0, 10);      // length 0
+    acc += static_cast<long long>(fz0.error == etl::strings::from_integer_error::none ? 1 : 0);
+    char two[2] = {};
+    auto fz2 = etl::strings::from_integer(0, two, 2, 10);         // exact fit
+    acc += static_cast<long long>(fz2.error == etl::strings::from_integer_error::none ? 1 : 0);
+    auto tz = etl::to_chars(one, one + 1, 0, 10);                 // "0" fits exactly, no terminator
+    acc += tz.ptr - one;
+    auto tz9 = etl::to_chars(one, one + 1, 10 + seed, 10);        // does not fit
+    acc += tz9.ptr - one;
     return acc;
 }
 
@@ -519,9 +544,12 @@ constexpr auto ce_run(int which, int seed) -> long long
     default: return ce::chrono(seed);
     }
 }
+#if defined(C02_CE)   // variant `ce` only: a battery that is UB for the constant evaluator makes THAT variant ill-formed,
+                      // the other variants still build and run the same batteries at run time
 #define C02_ROW(w) {ce_run(w, 0), ce_run(w, 1), ce_run(w, 7)}
 constexpr long long ce_table[ce_count][3] = {C02_ROW(0), C02_ROW(1), C02_ROW(2), C02_ROW(3), C02_ROW(4), C02_ROW(5),
                                              C02_ROW(6), C02_ROW(7), C02_ROW(8), C02_ROW(9), C02_ROW(10), C02_ROW(11)};
+#endif
 
 template <typename T, typename F>
 static void default_init_probe(Out& impl, F&& observe)
@@ -563,8 +591,44 @@ bool vh::run_case(std::string const& op, Toks& in, Out& impl, Out& ref)
         g_count_allocs = false;
         g_sink += v;
         impl.tok("ok").tok("allocs").num(g_allocs);
+#if defined(C02_CE)
         if (v != ce_table[which][idx]) { impl.tok("runtime").num(v).tok("consteval").num(ce_table[which][idx]); }
+#endif
         ref.tok("ok").tok("allocs").num(0);
+        return true;
+    }
+    if (op == "tofloat") {
+        // to_floating_point on a view into an EXACT-SIZE heap buffer (no terminator, nothing behind the last character):
+        // a read past the view that is also past the buffer is an ASan report in the san variant
+        auto kind = in.str();
+        auto cs   = in.list();
+        auto off  = static_cast<std::size_t>(in.num());
+        auto len  = static_cast<std::size_t>(in.num());
+        if (off + len > cs.size()) { return false; }
+        char* heap = cs.empty() ? nullptr : static_cast<char*>(std::malloc(cs.size()));
+        for (std::size_t i = 0; i < cs.size(); ++i) { heap[i] = static_cast<char>(cs[i]); }
+        auto const view = (heap == nullptr) ? etl::string_view{} : etl::string_view{heap + off, len};
+        int err       = 0;
+        long long end = 0;
+        if (kind == "f") {
+            auto r = etl::strings::to_floating_point<float>(view);
+            err = static_cast<int>(r.error); end = r.end - view.data(); g_sink += static_cast<long long>(r.value);
+        } else {
+            auto r = etl::strings::to_floating_point<double>(view);
+            err = static_cast<int>(r.error); end = r.end - view.data(); g_sink += static_cast<long long>(r.value);
+        }
+        impl.tok("ok").num(err).num(end);
+        // reference: the text ends at the first null character or the end of the view; optional leading white space, then
+        // only digits and '.'; otherwise invalid_input with end == begin
+        std::size_t n = 0;
+        while (n < len && heap[off + n] != '\0') { ++n; }
+        std::size_t i = 0;
+        auto is_sp = [](char c) { return c == ' ' || c == '\f' || c == '\n' || c == '\r' || c == '\t' || c == '\v'; };
+        while (i < n && is_sp(heap[off + i])) { ++i; }
+        bool good = true;
+        for (; i < n; ++i) { char c = heap[off + i]; if (!((c >= '0' && c <= '9') || c == '.')) { good = false; } }
+        if (good) { ref.tok("ok").num(0).num(static_cast<i64>(n)); } else { ref.tok("ok").num(1).num(0); }
+        std::free(heap);
         return true;
     }
     if (op == "default_init") {
@@ -640,8 +704,10 @@ bool vh::run_case(std::string const& op, Toks& in, Out& impl, Out& ref)
     return false;
 }
 
-// (c) the constant evaluator as UB oracle: ce_table above is a constexpr array, so every constexpr battery is
-// evaluated at compile time for the seeds 0, 1, 7; UB in any of them makes this translation unit ill-formed.
+// (c) the constant evaluator as UB oracle: ce_table above is a constexpr array, so (in variant `ce`) every constexpr
+// battery is evaluated at compile time for the seeds 0, 1, 7; UB in any of them makes the translation unit ill-formed.
+#if defined(C02_CE)
 static_assert(ce_table[0][0] == ce::vec(0));
+#endif
 
 VERIF_MAIN()
